@@ -26,7 +26,9 @@ Check ==
   i = 0 \/
   LET I == InstOf(i) IN
   /\ Thm("TopologiesValid", TopoValid(I.T))
-  /\ Thm("SegmentsWellFormed", \A n \in DOMAIN I.segs : SegWalkOk(I.T, I.segs[n]) /\ ChainOk(I.segs[n]))
+  \* (with the deliberately broken beacon rule of the oracle self-check the chain rule fails by construction;
+  \*  the self-check is about the consequence: reference paths stop being deliverable)
+  /\ Thm("SegmentsWellFormed", \A n \in DOMAIN I.segs : SegWalkOk(I.T, I.segs[n]) /\ (PEER_BETA_NEXT => ChainOk(I.segs[n])))
   /\ Thm("RefPathsSound", RefSound(I))
   /\ Thm("OfferedWhenJoinable", OfferedWhenJoinable(I))
   /\ Thm("RefCompleteWrtTopology", RefCompleteWrtTopology(I))
